@@ -16,8 +16,10 @@ NoDev == {}
 DevKept == {"EnvKeptOnAbort", "NestedInvokeSharesLoadedModules"}    \* on top of the code as it is
 Ideal == INSTANCE ContextInvoke WITH Dev <- NoDev
 Kept == INSTANCE ContextInvoke WITH Dev <- DevKept
-DevAsIs == {"LoadDataTableMutableWithinPage", "NestedInvokeSharesLoadedModules"}
+DevAsIs == {"LoadDataTableMutableWithinPage", "NestedInvokeSharesLoadedModules", "ContentLanguageObjectShared"}
 AsIs == INSTANCE ContextInvoke WITH Dev <- DevAsIs
+DevObjMemo == DevAsIs \cup {"HandedOutObjectsMemoised"}      \* (round 9) class of a seeded change
+ObjMemo == INSTANCE ContextInvoke WITH Dev <- DevObjMemo
 DevShared == DevAsIs \cup {"NestedSharesCallerEnv"}
 Shared == INSTANCE ContextInvoke WITH Dev <- DevShared
 KeptLim == INSTANCE ContextInvoke WITH Dev <- {"TimeLimitKept"}
@@ -32,10 +34,11 @@ TSpec == TInit /\ [][TNext]_n
 Verdict(i) ==
   LET h == Hists[i]
       ks == KindsOf(h)
-  IN \E exp \in {Ideal!Outcomes(ks)} : \E kp \in {Kept!Outcomes(ks)} : \E kl \in {KeptLim!Outcomes(ks)} :
+  IN \E exp \in {Ideal!Outcomes(ks)} : \E kp \in {Kept!Outcomes(ks)} : \E kl \in {KeptLim!Outcomes(ks)} : \E om \in {ObjMemo!Outcomes(ks)} :
        PrintT(<<"CASE", ToJson([i |-> i, bad |-> {j \in 1..Len(h) : h[j] # exp[j]}, exp |-> exp, asis |-> AsIs!Outcomes(ks),
                                  law |-> Ideal!MeetsDemand(ks), keptExplains |-> (kp = h /\ kp # exp),
-                                 limKeptExplains |-> (kl = h /\ kl # exp), limkept |-> kl])>>)
+                                 limKeptExplains |-> (kl = h /\ kl # exp), limkept |-> kl,
+                                 objMemoExplains |-> (om = h /\ om # AsIs!Outcomes(ks))])>>)
 NVerdict(j) ==
   LET c == Progs[j].case
       got == Progs[j].got
